@@ -42,6 +42,11 @@ func (b Bound) ToRing() Ring {
 
 // Extend grows the bound to include the new point.
 func (b Bound) Extend(point Point) Bound {
+	// nothing yet, the point is the bound
+	if b.IsEmpty() {
+		return Bound{Min: point, Max: point}
+	}
+
 	// already included, no big deal
 	if b.Contains(point) {
 		return b
@@ -63,6 +68,10 @@ func (b Bound) Extend(point Point) Bound {
 func (b Bound) Union(other Bound) Bound {
 	if other.IsEmpty() {
 		return b
+	}
+
+	if b.IsEmpty() {
+		return other
 	}
 
 	b = b.Extend(other.Min)
